@@ -6,6 +6,7 @@ import Driver.Namespace
 import Driver.Reader
 import Driver.Rules
 import Driver.BitIO
+import Driver.Expr
 /-! Correspondence driver: `lake env lean --run Driver/Main.lean <suite>`; one JSON case per input line,
     one JSON outcome per output line (`{"id":…, …}` or `{"id":…,"err":…}`). -/
 open Lean
@@ -22,6 +23,8 @@ def dispatch (suite : String) (j : Json) : Except String Json :=
   | "text" => DriverReader.handle j
   | "rules" => DriverRules.handle j
   | "bitio" => DriverBitIO.handle j
+  | "expr" | "const" => DriverExpr.handle j
+  | "garbage" => DriverExpr.handleGarbage j
   | s => throw s!"unknown suite {s}"
 
 partial def loop (suite : String) (h : IO.FS.Stream) (out : IO.FS.Stream) : IO Unit := do
